@@ -144,6 +144,8 @@ func c12Main(specBytes []byte) {
 				x.body()
 			case "stall":
 				x.stalled()
+			case "dead":
+				x.dead()
 			}
 			x.res.Ms = time.Since(t0).Milliseconds()
 			Emit(x.res)
@@ -196,7 +198,7 @@ func (x *c12Exec) step(s c12Step) {
 }
 
 func c12Bound(action string) time.Duration {
-	if action == "poll" {
+	if action == "poll" || action == "poll-overlapping" {
 		return shimBoundPoll * time.Duration(c12Scale)
 	}
 	return shimBoundCall * time.Duration(c12Scale)
@@ -1067,22 +1069,40 @@ func (x *c12Exec) stress() {
 // idle: the one poll that finds nothing and has to time out by itself.
 func (x *c12Exec) idle() {
 	s, _ := x.open()
-	if s == nil {
+	s2, _ := x.open()
+	if s == nil || s2 == nil {
 		x.res.Skipped++
 		return
 	}
+	// at the same time, on a second idle session: two polls that overlap. Each is a
+	// call of its own and has to be answered (by its own time-out) like any other.
+	pa := shimStart(x.h, nil, "", shimReq("poll", nil, shimIDBody(s2.id)))
+	time.Sleep(50 * time.Millisecond)
+	pb := shimStart(x.h, nil, "", shimReq("poll", nil, shimIDBody(s2.id)))
 	a := x.call("poll", "poll(open session, nothing pending)", "", nil, shimIDBody(s.id))
 	x.step(c12Step{Op: "poll-idle", Target: s.id, Status: a.Status, Ms: a.ms()})
 	x.res.Statuses = fmt.Sprintf("poll=%d after %dms", a.Status, a.ms())
-	// the session is still usable afterwards
-	m := c12BackendMsg(0)
-	s.bc.send(m)
-	p := x.call("poll", "poll(open session, 1 pending, after an idle poll)", "", nil, shimIDBody(s.id))
-	x.step(c12Step{Op: "poll", Target: s.id, Status: p.Status, Ms: p.ms()})
-	c := x.call("close", "close(session after idle poll)", "", nil, shimIDBody(s.id))
-	if c.Answered && c.Status == 200 {
-		x.checkBackendClosed(s, "idle")
-		x.rejects(s, "close answered 200")
+	for i, p := range []*shimPending{pa, pb} {
+		o := p.wait(c12Bound("poll"))
+		label := fmt.Sprintf("poll %d of two overlapping polls on one idle session (session %s, nothing pending)", i+1, s2.id)
+		x.step(c12Step{Op: "poll-idle-overlapping", Target: s2.id, Status: o.Status, Ms: o.ms()})
+		if !o.Answered && o.Panic == "" {
+			c12NoteMiss("no-answer:poll-overlapping")
+		}
+		x.judge("poll-overlapping", label, "", o)
+		x.res.Statuses += fmt.Sprintf("; overlapping poll %d=%d after %dms", i+1, o.Status, o.ms())
+	}
+	// the sessions are still usable afterwards
+	for _, q := range []*c12Sess{s, s2} {
+		m := c12BackendMsg(0)
+		q.bc.send(m)
+		p := x.call("poll", "poll(open session, 1 pending, after an idle poll)", "", nil, shimIDBody(q.id))
+		x.step(c12Step{Op: "poll", Target: q.id, Status: p.Status, Ms: p.ms()})
+		c := x.call("close", "close(session after idle poll)", "", nil, shimIDBody(q.id))
+		if c.Answered && c.Status == 200 {
+			x.checkBackendClosed(q, "idle")
+			x.rejects(q, "close answered 200")
+		}
 	}
 }
 
@@ -1476,4 +1496,94 @@ func (x *c12Exec) stalled() {
 	x.call("close", fmt.Sprintf("close(session %s, wind-down after the stalled backend dropped)", s.id), "", nil, shimIDBody(s.id))
 	x.b.forget(s.token)
 	x.probe("stalled-backend script " + script)
+}
+
+// ------------------------------------------------------------ backend dies with messages in the agent's hands
+
+// dead: the backend sends Rep messages that nobody polls, waits long enough
+// for the agent's reader to have taken what it can hold (10 in the queue and
+// one in its hand), and dies abruptly. The client, unaware, posts data until
+// that is refused with 400, and only then polls. The polls have to deliver,
+// in order, the messages the agent had already read - the first
+// min(Rep, 11) - before they report the session closed (anything beyond was
+// still in the socket when the connection died and may be gone).
+func (x *c12Exec) dead() {
+	s, _ := x.open()
+	if s == nil {
+		x.res.Skipped++
+		return
+	}
+	n := x.c.Rep
+	for i := 0; i < n; i++ {
+		m := c12BackendMsg(i)
+		if s.bc.send(m) != nil {
+			x.res.Skipped++
+			return
+		}
+		s.sent = append(s.sent, m)
+	}
+	// progress assumption: an idle reader on loopback has taken a message 250 ms after it was sent
+	// (observed: well under 1 ms); a miss is re-run alone with the wait doubled
+	time.Sleep(250 * time.Millisecond * time.Duration(c12Scale))
+	s.bc.closeAbruptly()
+	s.state = c12BClosed
+	refused := false
+	for i := 0; i < 40 && !refused; i++ {
+		a := x.call("data", fmt.Sprintf("data(session %s, backend died)", s.id), "", nil, c12DataBody(s.id, fmt.Sprintf("anyone there %d", i)))
+		if i < 3 || a.Status != 200 {
+			x.step(c12Step{Op: "data", Target: s.id, Status: a.Status, Ms: a.ms()})
+		}
+		if !a.Answered {
+			return
+		}
+		refused = a.Status == 400
+		if !refused {
+			time.Sleep(2 * time.Millisecond)
+		}
+	}
+	x.res.Statuses = fmt.Sprintf("sent=%d data-refused=%v", n, refused)
+	must := n
+	if must > 11 {
+		must = 11
+	}
+	closed := false
+	for k := 0; k < n+4 && !closed; k++ {
+		a := x.call("poll", fmt.Sprintf("poll(session %s after the backend died and data was refused)", s.id), "", nil, shimIDBody(s.id))
+		x.step(c12Step{Op: "poll", Target: s.id, Status: a.Status, Ms: a.ms()})
+		if !a.Answered {
+			return
+		}
+		switch a.Status {
+		case 200:
+			ms, err := shimDecodePoll(a.Body, 1)
+			if err != nil {
+				x.violate("C12:poll-reply-undecodable", err.Error())
+				return
+			}
+			for _, m := range ms {
+				if s.delivered >= len(s.sent) || c11Same(s.sent[s.delivered], m) != "" {
+					x.violate("C12:after-backend-death:wrong-message", fmt.Sprintf("session %s: poll delivered %s %q as message #%d; the backend had sent %s", s.id, m.kind(), shimTrunc(string(m.D), 60), s.delivered, c12Describe(s.sent, s.delivered)))
+					return
+				}
+				s.delivered++
+				x.res.Delivered++
+			}
+		case 400:
+			closed = true
+		}
+	}
+	if s.delivered < must {
+		x.mu.Lock()
+		x.res.NoAnswer = append(x.res.NoAnswer, "reader-settle")
+		x.mu.Unlock()
+		x.violate("C12:after-backend-death:read-messages-lost", fmt.Sprintf("session %s: the backend sent %d messages nobody polled, %d ms later it died, data calls were refused (%v), then the client polled: %d messages delivered before the session was reported closed=%v; the agent had read %d of them (10 queued, 1 in the reader's hand)", s.id, n, 250*c12Scale, refused, s.delivered, closed, must))
+	}
+	if !closed {
+		x.violate("C12:backend-close-not-reported", fmt.Sprintf("session %s: the backend died but %d polls later none has answered 400", s.id, n+4))
+	} else {
+		s.state = c12Closed
+		x.rejects(s, "a poll answered 400")
+	}
+	x.b.forget(s.token)
+	x.probe(fmt.Sprintf("backend death with %d unpolled messages", n))
 }
